@@ -1095,6 +1095,7 @@ impl Vm {
                 .expect("Expected ExcHandler.");
             (handler.finally_ip, handler.init_stack_size)
         };
+        self.active_fiber_mut().close_upvalues(init_stack_size);
         self.active_fiber_mut().stack.truncate(init_stack_size);
         self.ip = new_ip;
     }
@@ -1554,6 +1555,8 @@ impl Vm {
         if !(same_frame && handler.has_catch_block()) {
             self.active_fiber_mut().error_ip = None;
         }
+        self.active_fiber_mut()
+            .close_upvalues(handler.init_stack_size);
         self.active_fiber_mut()
             .stack
             .truncate(handler.init_stack_size);
